@@ -290,13 +290,13 @@ package db
 //@   ensures [C01,C02,C03,C06,C09,C14 getcond.inv] dbInv(db)
 //@   ensures [C14 getcond.one-critical-section] lockOps <= old(lockOps) + 1
 //@   ensures [C01,C02,C14 getcond.noeffect] noEffect(db)
-//@   ensures [C01 getcond.deny] !allows(caller.Permissions, "get", name) ==> (sv == nil && errIs(err, ErrAccessDenied) && !errIs(err, api.ErrValueNotChanged) && !errIs(err, ErrNotFound))
+//@   ensures [C01,C07,C08 getcond.deny] !allows(caller.Permissions, "get", name) ==> (sv == nil && errIs(err, ErrAccessDenied) && !errIs(err, api.ErrValueNotChanged) && !errIs(err, ErrNotFound))
 //@   ensures [C01,C06 getcond.deny-exact] (!allows(caller.Permissions, "get", name) && auditLog != old(auditLog)) ==> auditLog == snoc(old(auditLog), evC(caller, "get", name, 0, false))
 //@   ensures [C06 getcond.logged] sv != nil ==> auditLog == snoc(old(auditLog), evC(caller, "get", name, 0, true))
 //@   ensures [C06 getcond.trail] auditLog == old(auditLog) || auditLog == snoc(old(auditLog), evC(caller, "get", name, 0, allows(caller.Permissions, "get", name)))
 //@   ensures [C06,C09 getcond.quiet-unchanged] errIs(err, api.ErrValueNotChanged) ==> (sv == nil && auditLog == old(auditLog))
-//@   ensures [C09 getcond.iff-unchanged] allows(caller.Permissions, "get", name) ==> (errIs(err, api.ErrValueNotChanged) == (has(db.kv.secrets, name) && db.kv.secrets[name].ActiveVersion == oldVersion))
-//@   ensures [C09 getcond.returns-active] err == nil ==> (sv != nil && has(db.kv.secrets, name) && sv.Version == db.kv.secrets[name].ActiveVersion && sv.Version != oldVersion &&
+//@   ensures [C08,C09,C11 getcond.iff-unchanged] allows(caller.Permissions, "get", name) ==> (errIs(err, api.ErrValueNotChanged) == (has(db.kv.secrets, name) && db.kv.secrets[name].ActiveVersion == oldVersion))
+//@   ensures [C09,C11 getcond.returns-active] err == nil ==> (sv != nil && has(db.kv.secrets, name) && sv.Version == db.kv.secrets[name].ActiveVersion && sv.Version != oldVersion &&
 //@        bytes(sv.Value) == db.kv.secrets[name].Versions[db.kv.secrets[name].ActiveVersion])
 //@   ensures [C09 getcond.zero-ignored] oldVersion == 0 ==> !errIs(err, api.ErrValueNotChanged)
 //@   ensures [C08,C09 getcond.notfound] (allows(caller.Permissions, "get", name) && !has(db.kv.secrets, name)) ==> (sv == nil && errIs(err, ErrNotFound))
@@ -409,8 +409,8 @@ package db
 // ---- structural contracts (decided over go/types and the static call graph) ---------------
 // Documented schema-version-1 layout (kv.go): renaming a field or adding a plaintext index fails here.
 //@ layout [C03,C05 wrapped] wrapped { Version uint32; DEK []byte; DB []byte }
-//@ layout [C03 persist] persist { Secrets map[string]*secret }
-//@ layout [C03 secret] secret { Versions map[api.SecretVersion]byteString; ActiveVersion api.SecretVersion; LatestVersion api.SecretVersion }
+//@ layout [C02,C03,C18 persist] persist { Secrets map[string]*secret }
+//@ layout [C02,C03,C18 secret] secret { Versions map[api.SecretVersion]byteString; ActiveVersion api.SecretVersion; LatestVersion api.SecretVersion }
 //@ pin [C03 schema-version] const databaseSchemaVersion == 1
 //@ pin [C03,C18 byteString-marshal] method byteString.MarshalText exists
 //@ pin [C03,C18 byteString-unmarshal] method byteString.UnmarshalText exists
